@@ -52,8 +52,12 @@ def env_with(extra=None):
 # scratch directories
 
 
+TIER_SUB = ""     # set by Run: the quick and the thorough run of one property never share a working directory
+
+
 def workdir(pid, name=None, clean=True):
-    d = os.path.join(BUILD, pid) if name is None else os.path.join(BUILD, pid, name)
+    base = os.path.join(BUILD, pid, TIER_SUB) if TIER_SUB else os.path.join(BUILD, pid)
+    d = base if name is None else os.path.join(base, name)
     if clean and os.path.isdir(d) and name is not None:
         shutil.rmtree(d, ignore_errors=True)
     os.makedirs(d, exist_ok=True)
@@ -412,6 +416,8 @@ class Run:
         self.coverage = {}
         self.assumptions = []
         self.notes = []
+        global TIER_SUB
+        TIER_SUB = self.tier
         self.dir = workdir(pid, None, clean=False)
         for f in os.listdir(self.dir):
             if f.startswith("replay-%s-" % self.tier):
